@@ -938,6 +938,10 @@ func (c *Compiler) linkRecursiveCode(ctx *compileContext) {
 		lastCode.ElemIdx = lastCode.Idx + uintptrSize
 		lastCode.Length = lastCode.Idx + 2*uintptrSize
 
+		// interface opcodes of the copied program open their frame behind this one:
+		// they need its length ( the copy was made before the caller set it )
+		setTotalLengthToInterfaceOp(code)
+
 		// extend length to alloc slot for elemIdx + length.
 		// lastCode uses the slots totalLength+1 .. totalLength+3 ( totalLength does not
 		// count the end code ), so a frame is totalLength+4 slots long.
